@@ -39,6 +39,9 @@ func verifB(b bool) uint32 {
 	return 0
 }
 
+// VerifClntTags returns the number of free tags in the pool and of cached Req objects.
+func VerifClntTags(c *Clnt) (pool, cached int) { return len(c.tagpool.id), len(c.reqchan) }
+
 var verifMu sync.RWMutex
 var verifHook func(point string, obj interface{}, a, b uint32)
 
